@@ -12,7 +12,8 @@
            sample), carried by nearest-neighbour sampling with the same transform.
    Every operation builds a template->source transform S and a template shape and funnels into Warp. *)
 EXTENDS Mat, TLC, Json, CSV, IOUtils
-CONSTANTS Shape0, D, Scales, RotKeys, Modes, CropBoxes, Zooms, Warps, Order0Warps
+CONSTANTS Shape0, D, Scales, RotKeys, Modes, CropBoxes, Zooms, Warps, Order0Warps,
+          Ops           \* enabled operation families (see Next)
 VARIABLES img, hist
 vars == <<img, hist>>
 R(n) == <<n,1>>
@@ -83,7 +84,9 @@ Rec(op, args, exp) == [op |-> op, args |-> args, exp |-> exp]
 Expect(im, S) == [shape |-> im.shape, S |-> S, lms |-> im.lms, A |-> im.A, valid |-> ValidSeq(im), mask |-> MaskSeq(im), err |-> ""]
 Do(op, args, sh, S, fx, cm) == LET n == Warp(img, sh, S, fx, cm) IN img' = n /\ hist' = Append(hist, Rec(op, args, Expect(n, S)))
 Small == img.shape[1] * img.shape[2] <= 150 /\ img.shape[1] >= 2 /\ img.shape[2] >= 2
-Live == Len(hist) < D /\ Small /\ (IF hist = <<>> THEN TRUE ELSE hist[Len(hist)].op # "warp_order0")
+\* after a terminal operation the content is no longer an affine function of the result index (or the result changed class)
+Terminal == {"warp_order0", "warp_mask", "gpyramid", "warp_sym"}
+Live == Len(hist) < D /\ Small /\ (IF hist = <<>> THEN TRUE ELSE hist[Len(hist)].op \notin Terminal)
 \* s L <= 1 makes the index-space factor (s L - 1)/(L - 1) zero or negative (menpo divides by zero there): outside the domain
 Rescale(s, m) == Live /\ RLt(O1, RMul(s[1], R(img.shape[1]))) /\ RLt(O1, RMul(s[2], R(img.shape[2])))
                  /\ LET sh == RescaleShape(img, s, m) IN sh[1] >= 1 /\ sh[2] >= 1 /\ Do("rescale", <<s, m>>, sh, RescaleS(img, s), TRUE, FALSE)
@@ -114,15 +117,102 @@ WarpOrder0(w) == /\ Live
                           [Expect(n, w.S) EXCEPT !.valid = [i \in 1..w.shape[1] |-> [j \in 1..w.shape[2] |-> 0]]]
                              @@ [src |-> [i \in 1..w.shape[1] |-> [j \in 1..w.shape[2] |-> SrcIdx(w.S, img.shape, <<i-1, j-1>>)]],
                                  srcvalid |-> ValidSeq(img), srcA |-> img.A]))
+\* ---- the derived members of the crop / rescale families, about-centre with any linear map, warp_to_mask, pyramids -------
+MinOf(S) == CHOOSE v \in S : \A w \in S : RLe(v, w)
+MaxOf(S) == CHOOSE v \in S : \A w \in S : RLe(w, v)
+LmsMin(im, k) == MinOf({im.lms[i][k] : i \in 1..Len(im.lms)})
+LmsMax(im, k) == MaxOf({im.lms[i][k] : i \in 1..Len(im.lms)})
+LmsRange(im, k) == RSub(LmsMax(im, k), LmsMin(im, k))
+\* exact square roots only (the scale handed to rescale must be rational for the specification to name the result)
+IsSqRat(q) == RIsSq(q)
+SqrtRat(q) == RSqrt(q)
+\* crop_to_landmarks / crop_to_pointcloud (boundary b) and the *_proportion forms (boundary = p * min or max of the landmark range):
+\* PointCloud.bounds(boundary) = (min - boundary, max + boundary), then the plain crop convention
+CropAround(op, args, bd, c) ==
+   LET mn == <<RSub(LmsMin(img, 1), bd), RSub(LmsMin(img, 2), bd)>>
+       mx == <<RAdd(LmsMax(img, 1), bd), RAdd(LmsMax(img, 2), bd)>>
+       q == CropSpec(img, mn, mx, c) IN
+   /\ Live /\ q.err # "empty"
+   /\ IF q.err # "none" THEN img' = img /\ hist' = Append(hist, Rec(op, args, [err |-> q.err]))
+      ELSE Do(op, args, q.shape, q.S, TRUE, TRUE)
+CropToLms(b, c) == CropAround("crop_lms", <<b, c>>, R(b), c)
+CropToLmsProp(p, useMin, c) ==
+   LET r1 == LmsRange(img, 1) r2 == LmsRange(img, 2)
+       ref == IF useMin THEN RMin(r1, r2) ELSE RMax(r1, r2) IN
+   CropAround("crop_lms_prop", <<p, useMin, c>>, RMul(p, ref), c)
+\* crop_to_true_mask (MaskedImage): bounds of the true pixels +- b, not constrained, then the plain crop convention.
+\* Only when every mask value is judged (no rounding tie / fragile border in the mask's history)
+TrueIdx(im) == {x \in Grid(im.shape) : im.mask[x] = 1}
+CropToTrueMask(b, c) ==
+   /\ Live /\ (\A x \in Grid(img.shape) : img.mask[x] # -1) /\ TrueIdx(img) # {}
+   /\ LET T == TrueIdx(img)
+          lo(k) == CHOOSE v \in {x[k] : x \in T} : \A w \in {x[k] : x \in T} : v <= w
+          hi(k) == CHOOSE v \in {x[k] : x \in T} : \A w \in {x[k] : x \in T} : w <= v
+          mn == <<R(lo(1) - b), R(lo(2) - b)>>  mx == <<R(hi(1) + b), R(hi(2) + b)>>
+          q == CropSpec(img, mn, mx, c) IN
+      /\ q.err # "empty"
+      /\ IF q.err # "none" THEN img' = img /\ hist' = Append(hist, Rec("crop_true_mask", <<b, c, mn, mx>>, [err |-> q.err]))
+         ELSE Do("crop_true_mask", <<b, c, mn, mx>>, q.shape, q.S, TRUE, TRUE)
+\* the scalar members of the rescale family: the scale is derived, then rescale's convention applies
+RescaleBy(op, args, sc, m) ==
+   /\ Live /\ RLt(O1, RMul(sc, R(img.shape[1]))) /\ RLt(O1, RMul(sc, R(img.shape[2])))
+   /\ LET s == <<sc, sc>> sh == RescaleShape(img, s, m) IN sh[1] >= 1 /\ sh[2] >= 1 /\ sh[1] * sh[2] <= 300 /\ Do(op, args, sh, RescaleS(img, s), TRUE, FALSE)
+\* a derived scale is computed in floats (norm ratios, square roots): products that are exactly integral (half-integral) before
+\* rounding are decided by float noise and are not judged
+FragileScale(sc, m) == \E k \in {1, 2} : LET v == RMul(sc, R(img.shape[k])) IN IF m = "round" THEN IsHalf(v) ELSE IsInt(v)
+RescaleToDiag(d, m) == LET q == R(img.shape[1] * img.shape[1] + img.shape[2] * img.shape[2]) IN
+                       IsSqRat(q) /\ ~FragileScale(RMul(R(d), RInv(SqrtRat(q))), m) /\ RescaleBy("rescale_diag", <<d, m>>, RMul(R(d), RInv(SqrtRat(q))), m)
+RescaleToPc(k, m) == ~FragileScale(k, m) /\ RescaleBy("rescale_pc", <<k, m>>, k, m)          \* the target point cloud is k * landmarks + offset: the fitted uniform scale is k
+RescaleLmsRange(dr, m) == LET q == RAdd(RSq(LmsRange(img, 1)), RSq(LmsRange(img, 2))) IN
+                          /\ IsSqRat(q) /\ q # Z0 /\ ~FragileScale(RMul(R(dr), RInv(SqrtRat(q))), m)
+                          /\ RescaleBy("rescale_lms_range", <<dr, m>>, RMul(R(dr), RInv(SqrtRat(q))), m)
+\* pyramid: level k+1 = level k rescaled by 1/downscale (round = ceil); the Gaussian pyramid smooths first (content not judged)
+Pyramid(ds) == (Pow2(ds) \/ ~FragileScale(Norm(1, ds), "ceil")) /\ RescaleBy("pyramid", <<ds>>, Norm(1, ds), "ceil")
+GPyramid(ds) == /\ Live /\ (Pow2(ds) \/ ~FragileScale(Norm(1, ds), "ceil")) /\ RLt(O1, RMul(Norm(1, ds), R(img.shape[1]))) /\ RLt(O1, RMul(Norm(1, ds), R(img.shape[2])))
+                /\ LET s == <<Norm(1, ds), Norm(1, ds)>> sh == RescaleShape(img, s, "ceil") n == Warp(img, sh, RescaleS(img, s), TRUE, FALSE) IN
+                   /\ img' = [n EXCEPT !.valid = {}]
+                   /\ hist' = Append(hist, Rec("gpyramid", <<ds>>, Expect([n EXCEPT !.valid = {}], RescaleS(img, s))))
+\* transform_about_centre with any linear map (rotate_ccw_about_centre is the special case): same convention as Rotate
+Abouts == [shear |-> Lin2(O1, <<1,2>>, Z0, O1), shear2 |-> Lin2(O1, Z0, <<-1,4>>, O1), nus |-> Lin2(<<3,2>>, Z0, Z0, <<3,4>>), squash |-> Lin2(<<1,2>>, <<1,4>>, Z0, O1)]
+About(key, retain, m) == Live /\ LET q == AboutCentreS(img, Abouts[key], retain, m) IN
+                          /\ ~q.fragile /\ q.shape[1] >= 1 /\ q.shape[2] >= 1 /\ q.shape[1] * q.shape[2] <= 300
+                          /\ Do("about", <<key, retain, m>>, q.shape, q.S, FALSE, TRUE)
+\* warp_to_mask: only the template's true pixels are sampled; the result is a masked image whose mask IS the template mask
+\* (BooleanImage: the template with the sampled values at its true pixels); terminal
+TemplateMask(name, sh) == [x \in Grid(sh) |-> CASE name = "all" -> 1 [] name = "checker" -> (IF (x[1] + x[2]) % 2 = 0 THEN 1 ELSE 0)
+                                                 [] OTHER -> (IF x[1] <= x[2] THEN 1 ELSE 0)]
+WarpToMask(w, tm) ==
+   /\ Live
+   /\ LET t == TemplateMask(tm, w.shape)
+          n == Warp(img, w.shape, w.S, TRUE, TRUE)
+          n2 == [n EXCEPT !.valid = {x \in n.valid : t[x] = 1}] IN
+      /\ img' = n2
+      /\ hist' = Append(hist, Rec("warp_mask", <<w.name, tm>>,
+                  Expect(n2, w.S) @@ [tmask |-> [i \in 1..w.shape[1] |-> [j \in 1..w.shape[2] |-> t[<<i-1, j-1>>]]],
+                                      bmask |-> [i \in 1..w.shape[1] |-> [j \in 1..w.shape[2] |-> IF t[<<i-1, j-1>>] = 0 THEN 0 ELSE n.mask[<<i-1, j-1>>]]]]))
+\* smooth non-affine warps (piecewise affine, thin-plate spline): the map is an uninterpreted symbol, interpreted by the real
+\* transform; the adapter checks content, landmarks and mask against that same map (relational clauses); terminal
+WarpSym(kind) == /\ Live /\ img.shape[1] >= 4 /\ img.shape[2] >= 4
+                 /\ img' = img /\ hist' = Append(hist, Rec("warp_sym", <<kind>>, [err |-> "", sym |-> kind, shape |-> img.shape, lms |-> img.lms]))
 Init == img = Img0 /\ hist = <<>>
-Next == \/ \E s \in Scales, m \in Modes : Rescale(s, m)
-        \/ \E sh \in {<<Shape0[1] + 1, Shape0[2] - 1>>, <<2 * Shape0[1] - 1, 2 * Shape0[2] - 1>>} : Resize(sh)
-        \/ \E r \in RotKeys, b \in BOOLEAN, m \in Modes : Rotate(r, b, m)
-        \/ \E ax \in {0,1} : Mirror(ax)
-        \/ \E z \in Zooms : Zoom(z)
-        \/ \E bx \in CropBoxes, c \in BOOLEAN : Crop(bx[1], bx[2], c)
-        \/ \E w \in Warps : (w.shape[1] <= img.shape[1] + 2) /\ WarpTo(w)
-        \/ \E w \in Order0Warps : WarpOrder0(w)
+Next == \/ "rescale" \in Ops /\ \E s \in Scales, m \in Modes : Rescale(s, m)
+        \/ "resize" \in Ops /\ \E sh \in {<<Shape0[1] + 1, Shape0[2] - 1>>, <<2 * Shape0[1] - 1, 2 * Shape0[2] - 1>>} : Resize(sh)
+        \/ "rotate" \in Ops /\ \E r \in RotKeys, b \in BOOLEAN, m \in Modes : Rotate(r, b, m)
+        \/ "mirror" \in Ops /\ \E ax \in {0,1} : Mirror(ax)
+        \/ "zoom" \in Ops /\ \E z \in Zooms : Zoom(z)
+        \/ "crop" \in Ops /\ \E bx \in CropBoxes, c \in BOOLEAN : Crop(bx[1], bx[2], c)
+        \/ "warp" \in Ops /\ \E w \in Warps : (w.shape[1] <= img.shape[1] + 2) /\ WarpTo(w)
+        \/ "warp_order0" \in Ops /\ \E w \in Order0Warps : WarpOrder0(w)
+        \/ "crop_lms" \in Ops /\ \E b \in {0, 1, 3}, c \in BOOLEAN : CropToLms(b, c)
+        \/ "crop_lms" \in Ops /\ \E p \in {<<1,2>>, <<1,5>>}, um \in BOOLEAN, c \in BOOLEAN : CropToLmsProp(p, um, c)
+        \/ "crop_true_mask" \in Ops /\ \E b \in {0, 1}, c \in BOOLEAN : CropToTrueMask(b, c)
+        \/ "rescale_derived" \in Ops /\ \E m \in Modes : \/ \E d \in {5, 15, 20} : RescaleToDiag(d, m)
+                                                           \/ \E k \in {<<3,2>>, <<1,2>>, <<5,4>>} : RescaleToPc(k, m)
+                                                           \/ \E dr \in {5, 4, 10} : RescaleLmsRange(dr, m)
+        \/ "pyramid" \in Ops /\ \E ds \in {2, 3} : Pyramid(ds) \/ GPyramid(ds)
+        \/ "about" \in Ops /\ \E k \in DOMAIN Abouts, b \in BOOLEAN, m \in Modes : About(k, b, m)
+        \/ "warp_mask" \in Ops /\ \E w \in Warps \cup Order0Warps, tm \in {"all", "checker", "tri"} : (w.shape[1] <= img.shape[1] + 2) /\ WarpToMask(w, tm)
+        \/ "warp_sym" \in Ops /\ \E k \in {"pwa", "tps"} : WarpSym(k)
 Spec == Init /\ [][Next]_vars
 \* ---- properties ------------------------------------------------------------------------------------------
 \* registration: landmarks stay registered to the content they annotate:  A(lms) is constant (= original landmarks)
